@@ -431,7 +431,7 @@ fn chain_family(max_n: usize, quick: bool) -> Vec<Graph> {
                 }
             }
             // one diamond for every pair
-            let step = if quick && n > 16 { 2 } else { 1 };
+            let step = if quick && n > 16 { 3 } else { 1 };
             for b in (0..n).step_by(step) {
                 for j in b + 2..n {
                     push(&[(b, 1, Some(j))], format!("diamond b={b} j={j}"));
@@ -445,7 +445,7 @@ fn chain_family(max_n: usize, quick: bool) -> Vec<Graph> {
                 }
             }
             // two diamonds (sequential, overlapping or nested) at the depth classes
-            if quick && !(n % 3 == 0 || n >= 20) {
+            if quick && !(n % 4 == 0 || n >= 22) {
                 continue;
             }
             let dc = depth_classes(n);
@@ -544,9 +544,9 @@ pub fn run(args: &Args) {
     let mut families: Vec<(String, Vec<Graph>, bool)> = Vec::new();
     families.push((format!("all DAGs n<={max_dag} x all commit-point subsets"), dag_family(max_dag), false));
     families.push(("DAGs n<=5 x commit subsets on FileManager".into(), dag_family(if quick { 4 } else { 5 }), true));
-    families.push((format!("chains 1..={max_chain} x segment sizes {{1,2,3,7,mixed}} x branches/diamonds"), chain_family(max_chain, quick), false));
-    let file_chain: Vec<Graph> = chain_family(if quick { 24 } else { 32 }, true).into_iter().filter(|g| g.label.contains("plain") || g.label.contains("diamond b=0 j=")).collect();
+    let file_chain: Vec<Graph> = chain_family(if quick { 24 } else { 32 }, true).into_iter().filter(|g| g.label.contains("plain") || (g.label.contains("diamond b=0 j=") && (!quick || g.label.contains("seg=3")))).collect();
     families.push(("plain chains and fork-at-init diamonds on FileManager".into(), file_chain, true));
+    families.push((format!("chains 1..={max_chain} x segment sizes {{1,2,3,7,mixed}} x branches/diamonds"), chain_family(max_chain, quick), false));
 
     let mut sigs: BTreeSet<u128> = BTreeSet::new();
     let mut fam_json = Vec::new();
@@ -604,7 +604,9 @@ pub fn run(args: &Args) {
         ("multi_head_graphs", stats.multi_head_graphs.load(Relaxed)),
     ] {
         rep.count(k, v);
-        rep.require_nonzero(k);
+        if rep.violations().is_empty() {
+            rep.require_nonzero(k);
+        }
         rep.outcome(k, v);
     }
     rep.count("get_location_from_found_command_that_is_no_ancestor_of_start", stats.from_found_non_ancestor.load(Relaxed));
